@@ -21,7 +21,7 @@ from types import SimpleNamespace as NS
 
 from vlib import par
 from vlib.harness import AD, to_ad, build_store, store_fingerprint, gen_graph, gen_text, validated, patched, VOCAB
-from vlib.session import Session, unjson
+from vlib.session import Session, unjson, chash
 
 PID = "C12"
 RULE = ("one case = one (graphs, text, t1 config, slice caps, perf caps) tuple run through the real t1_propagate; "
@@ -95,7 +95,7 @@ def gen_case(rng: random.Random, big=False) -> dict:
             if rng.random() < 0.3:
                 text = text.upper()
     return {"graphs": graphs, "klass": klass, "t1": t1, "slice": slice_b, "perf": perf, "text": text,
-            "warm_cache": rng.random() < 0.4, "warm_loose_cfg": rng.random() < 0.5,
+            "warm_cache": rng.random() < 0.4, "warm_loose_cfg": rng.random() < 0.5, "edit_between": rng.random() < 0.3,
             "order": rng.sample(list(graphs), len(graphs)) + ([rng.choice(list(graphs))] if rng.random() < 0.1 else [])}
 
 
@@ -299,6 +299,58 @@ def run_warm(case, cfg, order, text):
         bootstrap.reset_globals()
 
 
+def run_edited(case, cfg, order, text, rng):
+    """Propagate, edit the store in place (existing edge ids re-upserted with another weight / relation / endpoint,
+    through upsert_edges or one at a time), propagate again: the second result must be the one a freshly built store
+    with the edited content gives.  Returns (second result on the edited store, result on the fresh store, n edits)."""
+    import clematis.engine.stages.t1 as t1m
+    from clematis.engine.types import Edge
+    from vlib import bootstrap
+
+    g2 = copy.deepcopy(case["graphs"])
+    edits = 0
+    for gid, g in g2.items():
+        ids = [n[0] for n in g["nodes"]]
+        for e in g["edges"]:
+            r = rng.random()
+            if r < 0.35:
+                e[3] = rng.choice([0.0, 1.0, -0.9, 0.05, e[3] * -1.0])
+                edits += 1
+            elif r < 0.5:
+                e[4] = rng.choice(["supports", "associates", "contradicts", "zz-unknown"])
+                edits += 1
+            elif r < 0.65 and ids:
+                e[2] = rng.choice(ids)
+                edits += 1
+    if not edits:
+        return None
+
+    def call(st):
+        ctx = NS(cfg=copy.deepcopy(cfg))
+        if case.get("slice") is not None:
+            ctx.slice_budgets = dict(case["slice"])
+        return t1m.t1_propagate(ctx, {"store": st, "active_graphs": list(order)}, text)
+
+    bootstrap.reset_globals()
+    st = build_store(case["graphs"])
+    call(st)
+    one_by_one = rng.random() < 0.5
+    for gid, g in g2.items():
+        es = [Edge(id=e[0], src=e[1], dst=e[2], weight=e[3], rel=e[4]) for e in g.get("edges", [])]
+        if not es:
+            continue
+        if one_by_one:
+            for e_ in es:
+                st.upsert_edges(gid, [e_])
+        else:
+            st.upsert_edges(gid, es)
+    second = call(st)
+    bootstrap.reset_globals()
+    fresh = call(build_store(g2))
+    bootstrap.reset_globals()
+    return second, fresh, edits
+
+
 def check_case(case, sess: Session):
     try:
         cfg = build_cfg(case)
@@ -404,6 +456,20 @@ def check_case(case, sess: Session):
             if mw.get("cache_hits"):
                 sess.count("warm_cache_hits_served")
 
+    # ---- (1c) the store edited in place between two propagations
+    if case.get("warm_cache") or case.get("edit_between"):
+        ed = run_edited(case, cfg, order, text, random.Random(chash(case)))
+        if ed is not None:
+            second, fresh, n_ed = ed
+            sess.count("edited_store_repropagations")
+            keys_ = ("pops", "iters", "propagations", "radius_cap_hits", "layer_cap_hits", "node_budget_hits")
+            a_ = ([d.get("id") for d in second.graph_deltas], {k: second.metrics.get(k) for k in keys_})
+            b_ = ([d.get("id") for d in fresh.graph_deltas], {k: fresh.metrics.get(k) for k in keys_})
+            if a_ != b_:
+                sess.violation("edited-store:result-differs-from-a-fresh-store-with-the-same-content", case, {"edited": a_, "fresh": b_, "edits": n_ed})
+            elif b_[0] != got:
+                sess.count("edited_store_repropagations_where_the_edit_changed_the_result")
+
     # ---- (3) reference model
     if not perf_caps_on:
         exp_ids = []
@@ -462,6 +528,7 @@ def main(tier: str, seed: int):
     sess.require("cases_where_a_budget_bound", 50)
     sess.require("cases_with_propagation", 500)
     sess.require("warm_cache_hits_served", 50)
+    sess.require("edited_store_repropagations_where_the_edit_changed_the_result", 30)
     sess.finish()
 
 
